@@ -33,6 +33,8 @@ func c36Safe(tr *vlib.Trace, what string, f func()) {
 	f()
 }
 
+type c36Runaway struct{}
+
 func c36Seq(s uint32) []int { return []int{int(s >> 16), int(s & 0xffff)} }
 
 var c36Base = time.Date(2026, 1, 1, 0, 0, 0, 0, time.UTC)
@@ -57,14 +59,38 @@ func c36Sched(tr *vlib.Trace, r *rand.Rand, ws []int64, f float64, windows int) 
 		}
 		n := uint32(len(ws))
 		s := p.newScheduler(false)
+		// the scheduler's sequence source stays the picker's counter, with a budget per pick so that a pick that
+		// does not terminate is recorded (used > n) instead of hanging the driver
+		used := uint32(0)
+		inc := func() uint32 {
+			used++
+			if used > 4*n+8 {
+				panic(c36Runaway{})
+			}
+			return p.inc()
+		}
+		pick := func() (idx int) {
+			used = 0
+			defer func() {
+				if r := recover(); r != nil {
+					if _, ok := r.(c36Runaway); !ok {
+						panic(r)
+					}
+					idx = -1
+				}
+			}()
+			return s.nextIndex()
+		}
 		switch sc := s.(type) {
 		case *edfScheduler:
+			sc.inc = inc
 			sw := make([]int, len(sc.weights))
 			for i, x := range sc.weights {
 				sw[i] = int(x)
 			}
 			tr.Emit(map[string]any{"ev": "sched", "w": ws, "kind": "edf", "sw": sw})
 		case *rrScheduler:
+			sc.inc = inc
 			tr.Emit(map[string]any{"ev": "sched", "w": ws, "kind": "rr", "sw": []int{int(sc.numSCs)}})
 		default:
 			tr.Emit(map[string]any{"ev": "panic", "what": "sched", "r": fmt.Sprintf("scheduler %T", s)})
@@ -78,8 +104,8 @@ func c36Sched(tr *vlib.Trace, r *rand.Rand, ws []int64, f float64, windows int) 
 			p.idx.Store(st)
 			for k := 0; k < 2; k++ {
 				before := p.idx.Load()
-				i := s.nextIndex()
-				tr.Emit(map[string]any{"ev": "next", "s": c36Seq(before), "idx": i, "used": int(p.idx.Load() - before)})
+				i := pick()
+				tr.Emit(map[string]any{"ev": "next", "s": c36Seq(before), "idx": i, "used": int(used)})
 			}
 		}
 		// full windows of 65535*n consecutive sequence numbers
@@ -92,13 +118,12 @@ func c36Sched(tr *vlib.Trace, r *rand.Rand, ws []int64, f float64, windows int) 
 			counts := make([]int, n)
 			maxused := uint32(0)
 			for {
-				before := p.idx.Load()
-				i := s.nextIndex()
+				i := pick()
 				after := p.idx.Load()
-				if u := after - before; u > maxused {
-					maxused = u
+				if used > maxused {
+					maxused = used
 				}
-				if after-st > win {
+				if i < 0 || after-st > win {
 					break
 				}
 				if i >= 0 && i < len(counts) {
